@@ -339,7 +339,8 @@ pub fn shapes(w: usize, m: usize, rich: bool) -> Vec<Named> {
     let periods: Vec<usize> = if rich {
         vec![1, 2, 3, 4, 5, 7, 8, 9, 15, 16, 17, 31, 32, 33, 255, 256, 257, 258, 259, 260, w - 263, w - 262, w - 261, w - 260, w - 1, w, w + 1]
     } else {
-        vec![2, 3, 4, 17, 258, 259, w - 262, w - 261, w]
+        // (7 / 15 / 31 / 63: one less than the widths of the decoders' chunked copies)
+        vec![2, 3, 4, 7, 15, 17, 31, 63, 258, 259, w - 262, w - 261, w]
     };
     for &p in &periods {
         v.push(named(format!("periodic({p},{})", 2 * w + 100), periodic(p, 2 * w + 100)));
